@@ -21,6 +21,8 @@ type Ctx struct {
 
 	eps *EntryPoints
 	eff *Eff
+	streamOracle func(fn *ssa.Function, v ssa.Value) bool
+	minLenMemo   map[string][2]int64
 }
 
 // Info is the descriptive part of the evidence.
